@@ -327,7 +327,9 @@ theorem IsHomotopyEquiv.of_perm {R : Type*} [Ring R] {ι : ℕ → Type*} [∀ i
 
 /-! ### the hypotheses of section 3 are satisfiable by non-trivial data -/
 
-example : ∀ i, Ex.dd i * Ex.dd (i + 1) = 0 := fun _ => by decide
+theorem Ex.dd_sq_zero : ∀ i, Ex.dd i * Ex.dd (i + 1) = 0 := fun _ => by
+    show (!![0, 1; 0, 0] : Matrix (Fin 2) (Fin 2) ℤ) * !![0, 1; 0, 0] = 0
+    decide
 example : Ex.dd 0 ≠ 0 ∧ (Ex.σ 0).permMatrix ℤ ≠ 1 := by decide
 /-- a non-identity reduction of a non-zero complex (hypothesis of `sq_zero`, `comp`) -/
 example : IsReduction Ex.dd
@@ -336,12 +338,15 @@ example : IsReduction Ex.dd
   IsReduction.of_perm Ex.dd Ex.σ
 example : ∀ i, ((Ex.σ i).permMatrix ℤ * Ex.dd i * (Ex.σ (i + 1))⁻¹.permMatrix ℤ) *
     ((Ex.σ (i + 1)).permMatrix ℤ * Ex.dd (i + 1) * (Ex.σ (i + 1 + 1))⁻¹.permMatrix ℤ) = 0 :=
-  (IsReduction.of_perm Ex.dd Ex.σ).sq_zero (fun _ => by decide)
+  (IsReduction.of_perm Ex.dd Ex.σ).sq_zero Ex.dd_sq_zero
 /-- hypotheses of `of_iso` -/
-example : ∀ i, (Ex.σ i)⁻¹.permMatrix ℤ * (Ex.σ i).permMatrix ℤ = 1 := fun _ => by decide
-example : ∀ i, (Ex.σ i).permMatrix ℤ * (Ex.σ i)⁻¹.permMatrix ℤ = 1 := fun _ => by decide
+example : ∀ i, (Ex.σ i)⁻¹.permMatrix ℤ * (Ex.σ i).permMatrix ℤ = 1 :=
+  fun i => permMatrix_inv_mul (Ex.σ i)
+example : ∀ i, (Ex.σ i).permMatrix ℤ * (Ex.σ i)⁻¹.permMatrix ℤ = 1 :=
+  fun i => permMatrix_mul_inv (Ex.σ i)
 /-- hypothesis of `IsHomotopyEquiv.comp` (twice the swap) -/
-example : IsHomotopyEquiv Ex.dd _ _ _ _ :=
-  (IsHomotopyEquiv.of_perm Ex.dd Ex.σ).comp (IsHomotopyEquiv.of_perm _ Ex.σ)
+example : ∃ (d' : ∀ _ : ℕ, Matrix (Fin 2) (Fin 2) ℤ) (F B h : ∀ _ : ℕ, Matrix (Fin 2) (Fin 2) ℤ),
+    IsHomotopyEquiv Ex.dd d' F B h :=
+  ⟨_, _, _, _, (IsHomotopyEquiv.of_perm Ex.dd Ex.σ).comp (IsHomotopyEquiv.of_perm _ Ex.σ)⟩
 
 end Yuiv.C08
